@@ -29,6 +29,7 @@ func init() {
 func runC06(c *Ctx) {
 	c06ResponseLocks(c)
 	c06Gen(c)
+	rootOnce(c)
 }
 
 // guardedFields lists struct fields and the mutex field that must be held to touch them.
